@@ -13,10 +13,13 @@ CASES = [
     ("F4", "U", "cap1_ttl", "C10", {}),
     # four odd counters at an aging step need a sample period of 4 with three keys
     ("F8", "U", "cap2", "C08", {"Period": 4}), ("F13", "U", "cap_weight2", "C15", {}),
-    ("F5", "S", "s_cap1", "C10", {}), ("F6", "S", "s_cap2_tti", "C03", {}), ("F9", "S", "s_cap2_w", "C10", {}),
+    ("F5", "S", "s_cap1", "C10", {}), ("F6", "S", "s_cap2_tti", "C03", {"depth": 8}), ("F9", "S", "s_cap2_w", "C10", {}),
     ("F10", "S", "s_cap1_ttl", "C03", {}), ("F12", "S", "s_cap1_ttl", "C03", {"depth": 7}), ("F7", "S", "s_cap1", "C10", {}),
-    # the shortest history is nine calls long (it was found by the thorough depth of this slice)
-    ("F14", "S", "s_cap1", "C03", {"depth": 9}),
+    # eight calls; the history needs an insert over a dead entry to share its EntryInfo, i.e. open
+    # finding F15, which the code still has: F14 is switched on beside F15, and the control case
+    # (F15 alone, same slice and depth) must NOT be rejected
+    ("F14+F15", "S", "s_cap1", "C03", {"depth": 9, "vals": {1}}),
+    ("F15", "S", "s_cap1", "C03", {"depth": 9, "vals": {1}, "control": True}),
     ("F15", "S", "s_cap2_ttl_w", "C03", {"depth": 7}),
     # two threads write one key with different weights and queue their records in the opposite order:
     # every interleaving of race program `grow`; the final counters must equal the weights of the values held
@@ -33,6 +36,8 @@ def main():
         c = dict(P.Q[sl]) if kind != "C" else {}
         if "depth" in over:
             c["depth"] = over["depth"]
+        if "vals" in over:
+            c["vals"] = over["vals"]
         if kind == "U":
             k = P.constants_mc(c, [prop])
             k["Dev"] = {dev}
@@ -44,9 +49,19 @@ def main():
             r = V.model_check(wd, "self_%s_%s" % (dev, prop), "MC_Conc.tla", P.conc_constants(sl, False, False, (dev,)),
                               ["Ok", "NoCrash", "NoDeadlock"], workers=8, timeout=900)
         else:
-            r = V.model_check(wd, "self_%s_%s" % (dev, prop), c["module"], P.constants_smc(c, [prop], dev=(dev,)),
+            r = V.model_check(wd, "self_%s_%s" % (dev, prop), c["module"], P.constants_smc(c, [prop], dev=tuple(dev.split("+"))),
                               ["Ok", "NoPanic"], constraints=["Stop", "Depth"], view="View", workers=8, timeout=900)
         rejected = (not r["ok"]) and r["violated"] in ("Ok", "NoPanic")
+        if over.get("control"):
+            # a control: this deviation alone must stay silent on this slice (so that the case it
+            # accompanies says something about the other deviation)
+            out.append({"deviation": dev, "slice": sl, "monitor": prop, "control": True, "silent": not rejected,
+                        "distinct": r["distinct"], "wall_s": r["wall_s"]})
+            if rejected or r["timeout"]:
+                bad += 1
+            if os.path.exists(r["out"]):
+                os.remove(r["out"])
+            continue
         out.append({"deviation": dev, "slice": sl, "monitor": prop, "rejected": rejected, "violated": r["violated"],
                     "distinct": r["distinct"], "wall_s": r["wall_s"]})
         if not rejected:
@@ -55,7 +70,10 @@ def main():
             os.remove(r["out"])
     json.dump({"cases": out, "all_rejected": bad == 0}, open(os.path.join(V.ROOT, "evidence", "monitor_selftest.json"), "w"), indent=1)
     for o in out:
-        print("%-4s on %-12s monitor %s: %s" % (o["deviation"], o["slice"], o["monitor"], "rejected" if o["rejected"] else "NOT REJECTED"))
+        if o.get("control"):
+            print("%-7s on %-12s monitor %s: control, %s" % (o["deviation"], o["slice"], o["monitor"], "silent" if o["silent"] else "NOT SILENT"))
+        else:
+            print("%-7s on %-12s monitor %s: %s" % (o["deviation"], o["slice"], o["monitor"], "rejected" if o["rejected"] else "NOT REJECTED"))
     return 0 if bad == 0 else 2
 
 
